@@ -81,7 +81,7 @@ def check(case: dict) -> Verdict:
     for cb in CALLBACKS:
         n = base.inv.get(cb, 0)
         for j in range(n):
-            for ft in SYNC_FAULTS + (["CancelledError"] if is_async else []):
+            for ft in SYNC_FAULTS + (["CancelledError"] if is_async else []) + (["ReturnsNone"] if cb == "classifier" else []):
                 if cb in ("on_metric", "on_log", "before_sleep") and ft == "CallbackFault":
                     continue  # ordinary hook errors are C15's subject
                 env = run_case(case, entry, faults={(cb, j): ft})
